@@ -113,6 +113,15 @@ def gen_A(ch: Chooser, excl=()):
                 e["name"] = nm("i", "aabs")
             m["ents"].append(e)
         mods.append(m)
+    # a facade: a module that re-exports entities of a module it uses under other names
+    if "renamed_reexport" not in excl:
+        for i, m in enumerate(mods):
+            m["renames"] = {}
+            for j in m["uses"]:
+                pub = [e for e in mods[j]["ents"] if effective(mods[j], e) == "public" and e["k"] in ("type", "sub", "fun")]
+                if pub and ch.bool(1, 3):
+                    picked = ch.shuffle(pub)[: ch.count(1, 2)]
+                    m["renames"][str(j)] = [[f"re_{e['name']}", e["name"]] for e in picked]
     return mods
 
 
@@ -128,7 +137,12 @@ def exports(mods, i, cache=None):
     m = mods[i]
     out = {}
     for j in m["uses"]:
-        for name, v in exports(mods, j, cache).items():
+        X = exports(mods, j, cache)
+        ren = (m.get("renames") or {}).get(str(j))
+        if ren:
+            # `use amodJ, only: local => remote`: only these, under their local names
+            X = {loc: X[rem] for loc, rem in ren if rem in X}
+        for name, v in X.items():
             if m["default"] == "public":        # imported entities have the default accessibility (no explicit lists for them)
                 out[name] = v
     for e in m["ents"]:
@@ -155,7 +169,11 @@ def render_A(mods):
     for i, m in enumerate(mods):
         L = [f"module {m['name']}", f"  !! module of A {m['tracer']}"]
         for j in m["uses"]:
-            L.append(f"  use {mods[j]['name']}")
+            ren = (m.get("renames") or {}).get(str(j))
+            if ren:
+                L.append(f"  use {mods[j]['name']}, only: " + ", ".join(f"{loc} => {rem}" for loc, rem in ren))
+            else:
+                L.append(f"  use {mods[j]['name']}")
         L.append("  implicit none")
         if m["default"] == "private":
             L.append("  private")
@@ -316,8 +334,8 @@ def gen_B(ch: Chooser, amods):
             else:
                 tdecl.append(f"  type :: {tname}")
             n2, v2 = ch.choice(types)
-            if ch.bool(2, 3) and not (clash_ent is not None and n2 == clash_ent["name"]):
-                tdoc.append(f"see [[{n2}]]")
+            if ch.bool(2, 3) and not (clash_ent is not None and n2 == clash_ent["name"]) and n2 == v2[2]["name"]:
+                tdoc.append(f"see [[{n2}]]")            # (a name that is an alias inside A's facade is no name for a link)
                 ref(tpage, "type", v2, f"[[{n2}]] in type doc")
                 kinds.add("doclink")
             tdecl.append("    !! a type of B " + " ".join(tdoc))
@@ -363,7 +381,7 @@ def gen_B(ch: Chooser, amods):
             decl.append(f"    type({n}) :: obj")
             stmts.append(f"    call obj%{v[2]['bound']['name']}()")
             kinds.add("call-binding")
-            if ch.bool(1, 2) and not (clash_ent is not None and n == clash_ent["name"]):
+            if ch.bool(1, 2) and not (clash_ent is not None and n == clash_ent["name"]) and n == v[2]["name"]:
                 sdoc.append(f"[[{n}:{v[2]['bound']['name']}]]")
                 f, fr = target_of("bound", v[2]["bound"], None, v[2])
                 refs.append({"page": spage, "file": f, "frag": fr, "tracer": v[2]["bound"]["tracer"], "what": f"[[{n}:binding]]"})
@@ -371,7 +389,7 @@ def gen_B(ch: Chooser, amods):
         # [[...]] references
         for _ in range(ch.count(0, 3)):
             cands = [("module", amods[i]["name"], (None, i, amods[i])) for i in used] + \
-                    [(v[0], n, v) for n, v in vis.items() if v[0] in ("type", "sub", "fun", "gen")]
+                    [(v[0], n, v) for n, v in vis.items() if v[0] in ("type", "sub", "fun", "gen") and n == v[2]["name"]]
             kind, n, v = ch.choice(cands)
             if clash_ent is not None and n == clash_ent["name"]:
                 continue
@@ -476,7 +494,8 @@ def finish_case(amods, bfiles, refs, neg, inside, kinds, history, naming, a_disp
             if m["default"] == "public":
                 for h in helpers(e):
                     public_targets.append([f"proc/{h}.html", ""])
-    classes = sorted("ref:" + k for k in kinds) + ["history:" + history, "naming:" + naming]
+    classes = sorted("ref:" + k for k in kinds) + ["history:" + history, "naming:" + naming] + \
+        (["renamed-reexport"] if any(m.get("renames") for m in amods) else [])
     special = bool(set(kinds) & {"clash-module", "clash-entity", "private-name"}) or naming.startswith("remote") or damaged
     return {"files": files, "refs": refs, "neg": neg, "inside": inside, "history": history, "naming": naming,
             "expected_json": expected_json, "damaged": damaged,
